@@ -212,20 +212,21 @@ var allTags = []string{"v1", "v2", "v3", "bad", "junk", "g1", "g2", "gbad", "m1"
 // ---------------------------------------------------------------- executor state
 
 type exec struct {
-	root    string
-	dm      *routing.HandlingDataManager
-	mux     *http.ServeMux
-	tr      *vh.Trace
-	shared  public_types.SharedStateI[[]byte]
-	inCall  atomic.Bool
-	mu      sync.Mutex
-	fault   *Fault
-	count   map[string]int
-	fired   bool
-	txn     int
-	pending int // txn whose request phase ran at the previous observation point (0 = none)
-	hap     *fakeHAProxy
-	quiet   bool // hooks do not probe (concurrent cases)
+	root       string
+	dm         *routing.HandlingDataManager
+	mux        *http.ServeMux
+	tr         *vh.Trace
+	shared     public_types.SharedStateI[[]byte]
+	inCall     atomic.Bool
+	mu         sync.Mutex
+	fault      *Fault
+	count      map[string]int
+	fired      bool
+	txn        int
+	pending    int // txn whose request phase ran at the previous observation point (0 = none)
+	hap        *fakeHAProxy
+	quiet      bool // hooks do not probe (concurrent cases)
+	healthFail int
 }
 
 func (x *exec) abs(rel string) string { return filepath.Join(x.root, rel) }
@@ -417,10 +418,14 @@ func (f *fakeHAProxy) ServeHTTP(w http.ResponseWriter, r *http.Request) {
 	if strings.HasPrefix(r.URL.Path, "/healthcheck") {
 		if x.inCall.Load() {
 			x.mu.Lock()
-			fail := x.fault != nil && x.fault.Point == "health"
-			if fail && !x.fired {
+			if x.fault != nil && x.fault.Point == "health" && !x.fired {
 				x.fired = true
+				x.healthFail = 40 // one whole WaitForProxyHealthcheck (40 attempts, 250 ms apart) fails
 				x.tr.Add(vh.Ev{"ev": "fault", "point": "health"})
+			}
+			fail := x.healthFail > 0
+			if fail {
+				x.healthFail--
 			}
 			x.mu.Unlock()
 			if fail {
@@ -443,10 +448,12 @@ func (f *fakeHAProxy) ServeHTTP(w http.ResponseWriter, r *http.Request) {
 	if x.fault != nil && !x.fired && x.fault.Point == "haproxy" && n == x.fault.Nth {
 		x.fired = true
 		code = 500
+	}
+	x.tr.Add(vh.Ev{"ev": "haproxy", "n": n, "code": code})
+	if code != 200 {
 		x.tr.Add(vh.Ev{"ev": "fault", "point": "haproxy"})
 	}
 	x.mu.Unlock()
-	x.tr.Add(vh.Ev{"ev": "haproxy", "n": n, "code": code})
 	w.WriteHeader(code)
 }
 
@@ -541,7 +548,7 @@ func (x *exec) runCase(c Case) {
 	}
 	disk0, tree0 := x.snapshot()
 	x.mu.Lock()
-	x.fault, x.count, x.fired = c.Fault, map[string]int{}, false
+	x.fault, x.count, x.fired, x.healthFail = c.Fault, map[string]int{}, false, 0
 	x.mu.Unlock()
 	x.pending = 0
 	x.quiet = c.Conc > 0
@@ -594,6 +601,9 @@ func (x *exec) runCase(c Case) {
 	close(stop)
 	wg.Wait()
 	disk1, tree1 := x.snapshot()
+	if !w.wrote {
+		w.code = 200
+	}
 	x.tr.Add(vh.Ev{"ev": "reply", "code": w.code, "ok": w.code >= 200 && w.code < 300, "disk": disk1, "tree": tree1})
 	x.observe() // after the update: closes the in-flight transaction, opens one more
 	x.observe() // and a transaction entirely after the update
@@ -624,20 +634,21 @@ func main() {
 			repo = "/repo"
 		}
 		env := map[string]string{
-			"VERIF_C08_CHILD":               "1",
-			"LUNAR_STREAMS_ENABLED":         "true",
-			"LUNAR_PROXY_FLOW_DIRECTORY":    filepath.Join(root, "flows"),
-			"LUNAR_PROXY_QUOTAS_DIRECTORY":  filepath.Join(root, "quotas"),
-			"LUNAR_FLOWS_PATH_PARAM_DIR":    filepath.Join(root, "path_params"),
-			"LUNAR_PROXY_CONFIG":            filepath.Join(root, "gateway_config.yaml"),
-			"LUNAR_PROXY_METRICS_CONFIG":    filepath.Join(root, "metrics.yaml"),
-			"HAPROXY_MANAGE_ENDPOINTS_PORT": port,
-			"LUNAR_HEALTHCHECK_PORT":        port,
-			"TENANT_NAME":                   "verif",
-			"DISCOVERY_STATE_LOCATION":      filepath.Join(outdir, "discovery.json"),
-			"REMEDY_STATE_LOCATION":         filepath.Join(outdir, "remedy.json"),
-			"LOG_LEVEL":                     "panic",
-			"VERIF_C08_METRICS_SRC":         filepath.Join(repo, "proxy/metrics.yaml"),
+			"VERIF_C08_CHILD":                    "1",
+			"LUNAR_STREAMS_ENABLED":              "true",
+			"LUNAR_PROXY_FLOW_DIRECTORY":         filepath.Join(root, "flows"),
+			"LUNAR_PROXY_QUOTAS_DIRECTORY":       filepath.Join(root, "quotas"),
+			"LUNAR_FLOWS_PATH_PARAM_DIR":         filepath.Join(root, "path_params"),
+			"LUNAR_PROXY_CONFIG":                 filepath.Join(root, "gateway_config.yaml"),
+			"LUNAR_PROXY_METRICS_CONFIG":         filepath.Join(root, "metrics.yaml"),
+			"HAPROXY_MANAGE_ENDPOINTS_PORT":      port,
+			"LUNAR_HEALTHCHECK_PORT":             port,
+			"TENANT_NAME":                        "verif",
+			"DISCOVERY_STATE_LOCATION":           filepath.Join(outdir, "discovery.json"),
+			"REMEDY_STATE_LOCATION":              filepath.Join(outdir, "remedy.json"),
+			"LOG_LEVEL":                          "panic",
+			"VERIF_C08_METRICS_SRC":              filepath.Join(repo, "proxy/metrics.yaml"),
+			"LUNAR_PROXY_METRICS_CONFIG_DEFAULT": filepath.Join(repo, "proxy/metrics.yaml"),
 		}
 		for k, v := range env {
 			os.Setenv(k, v)
@@ -688,7 +699,9 @@ func main() {
 	x.dm.SetHandleRoutes(x.mux)
 	setup := time.Since(t0)
 
-	x.tr.Add(vh.Ev{"ev": "config", "flows": flowFiles})
+	x.tr.Add(vh.Ev{"ev": "config", "flows": flowFiles, "cat": map[string]int{
+		"flows/a.yaml": 1, "flows/b.yaml": 1, "flows/c.yaml": 1, "quotas/q.yaml": 2, "path_params/p.yaml": 3,
+		"gateway_config.yaml": 4, "metrics.yaml": 5}})
 	t1 := time.Now()
 	for _, c := range sc.Cases {
 		x.runCase(c)
